@@ -34,7 +34,7 @@ ASSUMPTIONS = [
     "libc memcmp/memchr/memmem behave as their ISO C specifications (memcmp modelled as lexicographic comparison of prefixes)",
     "a single allocation above 2^47 bytes fails (ALLOC_LIMIT in Model.v), used only to say that string.rep stops instead of returning on absurd sizes",
     "string sizes are below 2^63 (hypothesis 'slen s <= maxint' of the index theorems)",
-    "string.format float conversions (strprintf) and float math are outside the model: differential only",
+    "string.format: the port's strprintf.snprintf and Lua's l_sprintf are the same C library function (default build, no usestbsprintf / usenanoprintf pragma); its integer/character/string conversions behave as ISO C99 7.21.6.1 (coq/C13/ModelFmt.v c99_snprintf, run against glibc on every check); float conversions and float math are outside the model: differential only",
     "correspondence is differential testing, not a proof that model = code",
 ]
 
@@ -860,7 +860,7 @@ def correspond(ctx):
     return {
         "evaluations": len(cases) + len(asan_all),
         "distinct_nontrivial": len(nontrivial),
-        "rule": "cases = witnesses + corpus + index lattice x subjects + order pairs + rep/case + pattern grammar (depth<=3, sets starting with ']', %b, %f, back-references, position captures) + malformed soup + utf8 boundary code points and invalid sequences + pack/unpack sizes 1..16 both endiannesses + math lattice; non-trivial = distinct case lines on which port and reference Lua both return the same value",
+        "rule": "cases = witnesses + corpus + index lattice x subjects + order pairs + rep/case + pattern grammar (depth<=3, sets starting with ']', %b, %f, back-references, position captures) + malformed soup + utf8 boundary code points and invalid sequences + pack/unpack sizes 1..16 both endiannesses + string.format (every flag subset x width x precision x conversion d i u o x X c s, malformed and over-long specifications, float conversions differential) + math lattice; non-trivial = distinct case lines on which port and reference Lua both return the same value",
         "samples": lines[:3] + lines[len(lines) // 2: len(lines) // 2 + 3] + lines[-3:],
         "distribution": {"streams": dist, "per_op": per_op, "port_error_kinds": err_kinds, "verdicts": stats,
                          "asan_cases": len(asan_all),
@@ -877,11 +877,13 @@ def correspond(ctx):
 
 
 UNPROVED = [
-    "string.format / stringbuilder writef / strprintf float conversions: not modelled, differential only",
+    "string.format: the conversions of FLOATS (a A e E f g G) are differential only; the theorem C13_format_eq_lua treats the C formatter of floats as an arbitrary function (same specification, same argument on both sides). %q is not supported by the port (it stops), %p of non-pointers likewise; numeric conversions of STRING arguments (Lua coerces, the port is statically typed and stops) are outside the reference model. [c99_snprintf] (ISO C99 7.21.6.1 for d i u o x X c s) is a hand transcription of the standard, run against glibc through both real voices on every check, not proved against libc. Under the pragmas usestbsprintf / usenanoprintf the port bundles other snprintf implementations: not covered",
+    "string.format: no theorem that an integer item fits MAX_ITEM (at most 2 + 99 characters by C99, measured only); the float item that does not fit is the known finding 'formatted item too long'",
     "float math (floor/ceil/fmod/abs/max/min on floats): differential only (the two-argument max/min order defect is modelled abstractly)",
-    "pattern matcher: no theorem that the model's fuel (match_fuel) always suffices (MFuel was never observed in the correspondence), and no theorem that every subject/pattern index read is in bounds except the modelled %f case (AddressSanitizer stream only)",
-    "string.pack / string.unpack drivers around the proved pieces (option parser = C13_packsize_eq_lua, integer codec = C13_pack_int_eq_lua): buffer handling, strings 's' 'z' 'c', floats: differential only",
+    "pattern matcher, reads: C13_match_positions_in_range checks the positions and captures on every entry of match() / goto init (any depth); the reads INSIDE one step (single-character classes, bracket classes, %b, %f, back references) are guarded by those positions plus C13_match_class_end_in_pattern / _expansion_in_subject / _balance_in_subject, but there is no instrumented semantics with one check per byte read; the AddressSanitizer stream covers that dynamically. A pattern or subject that is a non-terminated string view (pattern.data[#pattern] is read as the terminator) is outside the model",
+    "pattern matcher, loop bounds: each inner loop is shown independent of its bound (C13_match_loop_bounds_adequate) and the outer fuel is never exhausted (C13_match_fuel_never_exhausted); the composition 'the matcher with every bound replaced by a larger one returns the same result' is not restated as one theorem",
+    "string.pack / string.unpack: C13_pack_unpack_format_roundtrip is over the option LIST (after parsing) for integer, string, padding, endianness and alignment options; the runtime parser of pack is tied to Lua's by C13_packsize_eq_lua for packsize only (pack's own option loop is the same code path but is not separately proved), unpack's format is parsed at compile time by the preprocessor (Lua code, not modelled; the model voice parses the format in harness glue); float options f d n: differential only; pack <> Lua's pack byte for byte: proved for the integer codec (C13_pack_int_eq_lua), differential for whole formats",
     "string.packsize / string.pack accept more than Lua: the extension option 't' (isize) and sizes above Lua's caps (a number above 2147483639 is cut by lstrlib.c's getnum and the rest is an 'invalid format option'; a total above INT_MAX is 'format result too large'; the port has neither cap: packsize('c2147483647') = 2147483647, packsize('c2147483639c9') = 2147483648; model and spec reproduce both sides); C13_packsize_eq_lua is one direction (Lua returns a size => same size) and the generators stay below the cap",
-    "utf8.codes as an iterator protocol (the step function is proved: C13_utf8codes_step_eq_lua), string.find plain search, string.byte/char varargs: differential only",
+    "utf8.codes as an iterator protocol (the step function is proved: C13_utf8codes_step_eq_lua), string.byte/char varargs: differential only; string.find plain: C13_find_plain_first/_none (first occurrence), the surrounding StrPatt.match glue differential",
     "gmatch with captures limit (MAX_CAPTURES = 8) and position captures ('not supported yet' asserts): the port stops; counted as port_undefined_where_lua_defined",
 ]
